@@ -11,10 +11,16 @@
 //!     ORDER     nat/rev/rnd/free: fragment completion order imposed through the `dds_verif` hook
 //!     REPORTER  mt = `Progress::new` (Send closure), st = `Progress::new_single_threaded`
 //!     CANCEL    -  : never
-//!               pre: token cancelled before the call; afterwards reset and retry
+//!               pre: token cancelled before the call; afterwards reset and retry (a fresh `Progress` value per call)
+//!               pres: as `pre`, but ONE `Progress` value is lent to both calls (a `Progress` is only borrowed
+//!                      by a call: cancel -> call -> `token.reset()` -> retry through the same object)
 //!               kN : the reporter closure cancels the token when it receives report number N (0-based)
 //!               sweep: first an uncancelled run, then one run per report index k (all k, at most 96
 //!                      evenly spread) cancelling at k
+//!               ioA/B: no cancellation, FAILING WRITER: an unfailed run tells the number T of bytes the call writes,
+//!                      then the call is repeated with a writer that accepts exactly (T-1)*A/B bytes and returns an
+//!                      I/O error from then on (A = 0: the first byte fails, A = B: the last byte fails)
+//!               iosweep: the unfailed run, then one failing run per A/8, A = 0..8
 //!
 //! Result line (canonical, compared with the Lean model with 1e-6 slack on progress values):
 //!   -     : `<res> n=<reports> late=<bytes written after the first 1.0 report> seq=<f32 bits,...>`
@@ -25,13 +31,20 @@
 //!   pre   : `<res> n=<reports> written=<bytes> retry=<res> n2=<reports>`
 //!   kN    : `<res> n=<reports>` (sequential) / `<res>` (parallel: later reports are schedule dependent)
 //!   sweep : `sweep n=<reports> cancelled=<runs that returned Cancelled> ok=<runs that returned Ok>`
+//!   pres  : as pre
+//!   ioA/B : `<res>` and, when the first or the last byte fails (the reports made before the first / the last write
+//!           do not depend on how the output is cut into `write` calls), ` n=<reports>`
+//!   iosweep: `iosweep <res of the unfailed run> n=<its reports> io=all|<fail points whose run was not err:Io>
+//!           nfirst=<reports of the run failing at the first byte> nlast=<… at the last byte>`
 //!
 //! Oracle (on the recorded values of the implementation alone): every value within [0,1]; never
 //! decreasing by more than 1e-6; in a run in which cancellation is never requested the last value is
 //! exactly 1.0 iff the call returned Ok (both APIs; the free function on its sequential /
 //! single-fragment path is known finding F8); cancelling at a report below 100 % or before the call
 //! gives Err(Cancelled) (a request at a 1.0 report may give either outcome); a pre-cancelled call
-//! reports nothing, writes nothing, and succeeds when retried after `reset`.
+//! reports nothing, writes nothing, and succeeds when retried after `reset` — with a fresh `Progress` and with
+//! the same one; a call that fails with an I/O error of the writer is a call that does not succeed: its reports
+//! are in range, monotone and do NOT end with 1.0.
 use crate::c14::*;
 use crate::common::*;
 use dds::*;
@@ -46,8 +59,13 @@ pub fn err_name(e: &EncodingError) -> String {
 pub enum Cancel {
     Never,
     Pre,
+    /// pre-cancel, reset, retry with the same `Progress` value
+    PreSame,
     At(usize),
     Sweep,
+    /// failing writer: accepts (T-1)*a/b of the T bytes of the call
+    Io(u32, u32),
+    IoSweep,
 }
 
 pub struct Case {
@@ -131,7 +149,17 @@ pub fn parse(line: &str) -> Option<Option<Case>> {
     let cancel = match t[13] {
         "-" => Cancel::Never,
         "pre" => Cancel::Pre,
+        "pres" => Cancel::PreSame,
         "sweep" => Cancel::Sweep,
+        "iosweep" => Cancel::IoSweep,
+        s if s.starts_with("io") => {
+            let (a, b) = s[2..].split_once('/')?;
+            let (a, b) = (p_u32(a)?, p_u32(b)?);
+            if b == 0 || a > b || b > 1 << 16 {
+                return None;
+            }
+            Cancel::Io(a, b)
+        }
         s if s.starts_with('k') => Cancel::At(p_usize(&s[1..])?),
         _ => return None,
     };
@@ -225,21 +253,123 @@ pub fn level_fragments(c: &Case) -> Vec<Vec<u32>> {
     out
 }
 
-struct CountW(Arc<std::sync::atomic::AtomicUsize>);
+/// counts the bytes it is given; accepts at most `limit` bytes in total (usize::MAX: all) and returns an
+/// I/O error from then on (a short write up to the limit first, as a full disk does)
+struct CountW {
+    count: Arc<std::sync::atomic::AtomicUsize>,
+    limit: Arc<std::sync::atomic::AtomicUsize>,
+}
 impl std::io::Write for CountW {
     fn write(&mut self, buf: &[u8]) -> std::io::Result<usize> {
-        self.0.fetch_add(buf.len(), std::sync::atomic::Ordering::SeqCst);
-        Ok(buf.len())
+        use std::sync::atomic::Ordering::SeqCst;
+        let have = self.count.load(SeqCst);
+        let room = self.limit.load(SeqCst).saturating_sub(have);
+        if buf.is_empty() {
+            return Ok(0);
+        }
+        if room == 0 {
+            return Err(std::io::Error::new(std::io::ErrorKind::Other, "writer full"));
+        }
+        let n = buf.len().min(room);
+        self.count.fetch_add(n, SeqCst);
+        Ok(n)
     }
     fn flush(&mut self) -> std::io::Result<()> {
         Ok(())
     }
 }
 
+/// what is done around the call(s) of one `execute`
+#[derive(Clone, Copy, Default)]
+pub struct Plan {
+    /// the token is cancelled before the first call
+    pub pre_cancel: bool,
+    /// the reporter closure cancels the token when it receives this report (0-based)
+    pub cancel_at: Option<usize>,
+    /// after the first call: `token.reset()` and the same call again
+    pub retry: bool,
+    /// all calls borrow ONE `Progress` value (otherwise every call gets a fresh one)
+    pub same_progress: bool,
+    /// the writer accepts this many bytes of the (first) call and fails afterwards
+    pub fail_after: Option<usize>,
+}
+
+struct Env<'a> {
+    c: &'a Case,
+    plan: Plan,
+    sched: &'a Arc<Sched>,
+    token: &'a CancellationToken,
+    shared: &'a Arc<Shared>,
+    count: &'a Arc<std::sync::atomic::AtomicUsize>,
+    limit: &'a Arc<std::sync::atomic::AtomicUsize>,
+}
+
+/// the calls of one `execute`: `call` is the API under test, lent a `Progress` built over `record`
+fn attempts<R, F>(env: &Env, record: &mut R, mut call: F) -> Vec<Outcome>
+where
+    R: FnMut(f32) + Send,
+    F: FnMut(&mut Progress) -> Result<(), EncodingError> + Send,
+{
+    use std::sync::atomic::Ordering::SeqCst;
+    let Env { c, plan, sched, token, shared, count, limit } = *env;
+    let n = 1 + plan.retry as usize;
+    let before_call = |attempt: usize| -> usize {
+        if attempt == 1 {
+            token.reset();
+        }
+        let before = count.load(SeqCst);
+        limit.store(if attempt == 0 { plan.fail_after.map(|k| before + k).unwrap_or(usize::MAX) } else { usize::MAX }, SeqCst);
+        before
+    };
+    let after_call = |result: Result<(), EncodingError>, before: usize| -> Outcome {
+        limit.store(usize::MAX, SeqCst);
+        let now = count.load(SeqCst);
+        let reports = std::mem::take(&mut *shared.reports.lock().unwrap_or_else(|e| e.into_inner()));
+        let late = shared.at100.lock().unwrap_or_else(|e| e.into_inner()).take().map(|a| now - a).unwrap_or(0);
+        let (forced, timeouts) = sched.stats();
+        Outcome { result, reports, written: now - before, forced, timeouts, late }
+    };
+    let mt = c.mt;
+    if plan.same_progress {
+        with_hook(sched, || {
+            pool(c.threads).install(|| {
+                let mut progress =
+                    if mt { Progress::new(record) } else { Progress::new_single_threaded(record) }.with_cancellation(token);
+                (0..n)
+                    .map(|attempt| {
+                        let before = before_call(attempt);
+                        let result = call(&mut progress);
+                        after_call(result, before)
+                    })
+                    .collect()
+            })
+        })
+    } else {
+        let mut out = vec![];
+        for attempt in 0..n {
+            let before = before_call(attempt);
+            let result = with_hook(sched, || {
+                pool(c.threads).install(|| {
+                    let mut progress =
+                        if mt { Progress::new(record) } else { Progress::new_single_threaded(record) }.with_cancellation(token);
+                    call(&mut progress)
+                })
+            });
+            out.push(after_call(result, before));
+        }
+        out
+    }
+}
+
 /// One call of the API under test with a recording reporter and a cancellation token; with `retry`
 /// the token is reset afterwards and the same call is made again (second outcome).
 pub fn execute(c: &Case, data: &[u8], pre_cancel: bool, cancel_at: Option<usize>, retry: bool) -> Vec<Outcome> {
+    execute_plan(c, data, Plan { pre_cancel, cancel_at, retry, ..Plan::default() })
+}
+
+pub fn execute_plan(c: &Case, data: &[u8], plan: Plan) -> Vec<Outcome> {
     use std::sync::atomic::Ordering::SeqCst;
+    let Plan { pre_cancel, cancel_at, .. } = plan;
     // every third case (seed % 3 == 1; the generator rotates the residue) hands the image over as a strided view whose
     // row pitch is not a multiple of the pixel size: the report arithmetic must not depend on how the rows are stored
     let bpp = c.color.bytes_per_pixel() as usize;
@@ -261,6 +391,7 @@ pub fn execute(c: &Case, data: &[u8], pre_cancel: bool, cancel_at: Option<usize>
     let sched = Sched::new(&lens, c.threads, c.order, c.seed, strict);
 
     let count = Arc::new(std::sync::atomic::AtomicUsize::new(0));
+    let limit = Arc::new(std::sync::atomic::AtomicUsize::new(usize::MAX));
     let tok2 = token.clone();
     let sh2 = shared.clone();
     let sc2 = sched.clone();
@@ -283,17 +414,14 @@ pub fn execute(c: &Case, data: &[u8], pre_cancel: bool, cancel_at: Option<usize>
         }
         sc2.note_submit();
     };
-    let take = |shared: &Arc<Shared>| std::mem::take(&mut *shared.reports.lock().unwrap_or_else(|e| e.into_inner()));
 
-    let mut writer = CountW(count.clone());
-    let late = |shared: &Arc<Shared>, now: usize| {
-        shared.at100.lock().unwrap_or_else(|e| e.into_inner()).take().map(|a| now - a).unwrap_or(0)
-    };
+    let mut writer = CountW { count: count.clone(), limit: limit.clone() };
     if pre_cancel {
         token.cancel();
     }
-    let mut out = vec![];
+    let env = Env { c, plan, sched: &sched, token: &token, shared: &shared, count: &count, limit: &limit };
     if c.api_encoder {
+        // the DDS header is written here, before the writer is armed
         let made = match c.mipn {
             None => Encoder::new_image(&mut writer, Size::new(c.w, c.h), c.format, c.mips),
             Some(n) => Encoder::new(&mut writer, c.format, &dds::header::Header::new_image(c.w, c.h, c.format).with_mipmap_count(n)),
@@ -304,47 +432,10 @@ pub fn execute(c: &Case, data: &[u8], pre_cancel: bool, cancel_at: Option<usize>
         };
         encoder.options = c.opts.clone();
         encoder.mipmaps.generate = c.mips;
-        for attempt in 0..(1 + retry as usize) {
-            if attempt == 1 {
-                token.reset();
-            }
-            let before = count.load(SeqCst);
-            let result = with_hook(&sched, || {
-                pool(c.threads).install(|| {
-                    let mut progress = if c.mt {
-                        Progress::new(&mut record)
-                    } else {
-                        Progress::new_single_threaded(&mut record)
-                    }
-                    .with_cancellation(&token);
-                    encoder.write_surface_with_progress(image, &mut progress)
-                })
-            });
-            let (forced, timeouts) = sched.stats();
-            out.push(Outcome { result, reports: take(&shared), written: count.load(SeqCst) - before, forced, timeouts, late: late(&shared, count.load(SeqCst)) });
-        }
+        attempts(&env, &mut record, |progress| encoder.write_surface_with_progress(image, progress))
     } else {
-        for attempt in 0..(1 + retry as usize) {
-            if attempt == 1 {
-                token.reset();
-            }
-            let before = count.load(SeqCst);
-            let result = with_hook(&sched, || {
-                pool(c.threads).install(|| {
-                    let mut progress = if c.mt {
-                        Progress::new(&mut record)
-                    } else {
-                        Progress::new_single_threaded(&mut record)
-                    }
-                    .with_cancellation(&token);
-                    encode(&mut writer, image, c.format, Some(&mut progress), &c.opts)
-                })
-            });
-            let (forced, timeouts) = sched.stats();
-            out.push(Outcome { result, reports: take(&shared), written: count.load(SeqCst) - before, forced, timeouts, late: late(&shared, count.load(SeqCst)) });
-        }
+        attempts(&env, &mut record, |progress| encode(&mut writer, image, c.format, Some(progress), &c.opts))
     }
-    out
 }
 
 fn res_name(r: &Result<(), EncodingError>) -> String {
@@ -505,46 +596,132 @@ fn sizes_for(name: &str, q: &str, rng: &mut Rng, thorough: bool) -> Vec<(u32, u3
     v
 }
 
+#[allow(clippy::too_many_arguments)]
+fn push_case(
+    out: &mut Vec<String>,
+    api: &str,
+    sh: &(&str, &str, &str, &str),
+    w: u32,
+    h: u32,
+    mips: u32,
+    par: bool,
+    rep: &str,
+    cancel: String,
+    k: &mut usize,
+    rng: &mut Rng,
+) {
+    let orders = ["nat", "rev", "rnd", "free"];
+    *k += 1;
+    let th = 1 + (*k * 7) % 16;
+    let o = orders[(*k / 3) % 4];
+    let nf = n_fragments(sh.0, w, h, sh.2, sh.3);
+    let line = format!(
+        "run {api} {} {w} {h} {} {} {} {} {} {th} {o} {rep} {cancel} {} nf={nf}",
+        sh.0,
+        sh.1,
+        sh.2,
+        sh.3,
+        if mips >= 2 { format!("m{mips}") } else { mips.to_string() },
+        par as u8,
+        rng.below(1 << 28) * 3 + (*k as u64 % 3)
+    );
+    // the split rule is C14's subject: hand the real fragment geometry of every level to the model
+    let geo = match parse(&line) {
+        Some(Some(c)) => geo_of(&level_fragments(&c)),
+        _ => None,
+    };
+    match geo {
+        Some(g) => out.push(format!("{line}@{}", g.iter().map(|(n, f)| format!("{n}:{f}")).collect::<Vec<_>>().join(","))),
+        None => out.push(line),
+    }
+}
+
+/// Calls that do not succeed for a reason other than cancellation, and sequences of calls on one `Progress`:
+///  * a FAILING WRITER (`ioA/B`, `iosweep`): the writer returns an I/O error at byte k of the output, k from the
+///    first to the last byte — the only way besides cancellation in which an encode of a valid image fails, hence
+///    the other half of "ends with 1.0 exactly when the call succeeds";
+///  * `pres`: cancelled before the call -> `Cancelled`, nothing written -> `token.reset()` -> the retry borrows the
+///    SAME `Progress` value (a `Progress` is only lent to a call and outlives it).
+/// Own PRNG stream and counter: the cases above stay what they were.
+fn gen_faults(seed: u64, thorough: bool) -> (Vec<String>, Vec<String>) {
+    let mut rng = Rng::new(seed ^ 0xFA17_10E5);
+    let mut k: usize = 0;
+    let mut out = vec![];
+    let points: [(u32, u32); 6] = [(0, 1), (1, 1), (1, 2), (1, 3), (7, 8), (2, 5)];
+    for sh in SHAPES {
+        let (mw, mh) = size_mult(sh.0);
+        let can_mip = mw == 1 && mh == 1;
+        for (si, (w, h)) in sizes_for(sh.0, sh.3, &mut rng, thorough).into_iter().enumerate() {
+            if w == 0 || h == 0 {
+                continue; // nothing is written: there is no byte to fail at
+            }
+            let big = w as u64 * h as u64 > 20_000;
+            let multi = n_fragments(sh.0, w, h, sh.2, sh.3) > 1;
+            for api in ["E", "F"] {
+                for mips in [0u32, 1, 2] {
+                    if mips > 0 && (api == "F" || !can_mip) {
+                        continue;
+                    }
+                    if mips == 2 && (w.max(h) < 4 || !multi) {
+                        continue;
+                    }
+                    for par in [false, true] {
+                        if par && !is_bc(sh.0) && si % 3 != 0 {
+                            continue;
+                        }
+                        let rep = if par && (si + mips as usize) % 4 == 1 { "st" } else { "mt" };
+                        if !big || thorough || (par && multi) {
+                            push_case(&mut out, api, sh, w, h, mips, par, rep, "pres".into(), &mut k, &mut rng);
+                        }
+                        if (par && multi && (!big || mips == 0)) || (thorough && (!big || (par && multi))) || (!big && (si + k) % 3 == 0) {
+                            push_case(&mut out, api, sh, w, h, mips, par, rep, "iosweep".into(), &mut k, &mut rng);
+                        } else {
+                            let (a, b) = points[(si + k) % points.len()];
+                            push_case(&mut out, api, sh, w, h, mips, par, rep, format!("io{a}/{b}"), &mut k, &mut rng);
+                        }
+                    }
+                }
+            }
+        }
+    }
+    let structured = std::mem::take(&mut out);
+    // PRNG: multi-fragment parallel BC encodes, every pool size / completion order
+    let n_rand = if thorough { 4_500 } else { 1_500 };
+    let bc_shapes: Vec<&(&str, &str, &str, &str)> = SHAPES.iter().filter(|s| is_bc(s.0)).collect();
+    for _ in 0..n_rand {
+        let sh = **rng.pick(&bc_shapes);
+        let t: u64 = if sh.0.starts_with("BC7") { 256 } else if sh.3 == "fast" { 4096 } else { 1024 };
+        let w = rng.range(4, 70);
+        let fh = ((t / w) / 4 * 4).max(4);
+        let h = match rng.below(3) {
+            0 => fh * rng.range(2, 12),
+            1 => fh * rng.range(1, 12) + rng.range(1, fh - 1),
+            _ => rng.range(fh + 1, 4 * fh),
+        };
+        if w * h > 120_000 {
+            continue;
+        }
+        let api = if rng.chance(1, 2) { "E" } else { "F" };
+        let mips = if api == "E" && rng.chance(1, 3) { *rng.pick(&[1u32, 1, 2, 3]) } else { 0 };
+        let mips = if mips >= 2 && w.max(h) < (1 << mips) { 1 } else { mips };
+        let rep = if rng.chance(1, 8) { "st" } else { "mt" };
+        let cancel = match rng.below(6) {
+            0 | 1 => "pres".to_string(),
+            2 => "iosweep".to_string(),
+            3 => "io0/1".to_string(),
+            4 => "io1/1".to_string(),
+            _ => format!("io{}/64", rng.below(65)),
+        };
+        push_case(&mut out, api, &sh, w as u32, h as u32, mips, true, rep, cancel, &mut k, &mut rng);
+    }
+    (structured, out)
+}
+
 pub fn gen(seed: u64, thorough: bool) -> Vec<String> {
     let mut rng = Rng::new(seed);
     let mut out = vec![];
-    let orders = ["nat", "rev", "rnd", "free"];
     let mut k: usize = 0;
-    let mut push = |out: &mut Vec<String>,
-                    api: &str,
-                    sh: &(&str, &str, &str, &str),
-                    w: u32,
-                    h: u32,
-                    mips: u32,
-                    par: bool,
-                    rep: &str,
-                    cancel: String,
-                    k: &mut usize,
-                    rng: &mut Rng| {
-        *k += 1;
-        let th = 1 + (*k * 7) % 16;
-        let o = orders[(*k / 3) % 4];
-        let nf = n_fragments(sh.0, w, h, sh.2, sh.3);
-        let line = format!(
-            "run {api} {} {w} {h} {} {} {} {} {} {th} {o} {rep} {cancel} {} nf={nf}",
-            sh.0,
-            sh.1,
-            sh.2,
-            sh.3,
-            if mips >= 2 { format!("m{mips}") } else { mips.to_string() },
-            par as u8,
-            rng.below(1 << 28) * 3 + (*k as u64 % 3)
-        );
-        // the split rule is C14's subject: hand the real fragment geometry of every level to the model
-        let geo = match parse(&line) {
-            Some(Some(c)) => geo_of(&level_fragments(&c)),
-            _ => None,
-        };
-        match geo {
-            Some(g) => out.push(format!("{line}@{}", g.iter().map(|(n, f)| format!("{n}:{f}")).collect::<Vec<_>>().join(","))),
-            None => out.push(line),
-        }
-    };
+    let push = push_case;
     // structured: every shape x sizes x API x mips x parallel x cancellation mode
     for sh in SHAPES {
         let (mw, mh) = size_mult(sh.0);
@@ -637,7 +814,11 @@ pub fn gen(seed: u64, thorough: bool) -> Vec<String> {
         }
     }
     // interleave the two lists so that check.py's chunks balance
-    let random = out;
+    let mut structured = structured;
+    let mut random = out;
+    let (fs, fr) = gen_faults(seed, thorough);
+    structured.extend(fs);
+    random.extend(fr);
     let mut out = Vec::with_capacity(structured.len() + random.len());
     let (mut a, mut b) = (structured.into_iter().peekable(), random.into_iter().peekable());
     while a.peek().is_some() || b.peek().is_some() {
@@ -700,8 +881,10 @@ pub fn run(line: &str) -> Option<(String, Vec<String>)> {
             };
             Some((res, orc))
         }
-        Cancel::Pre => {
-            let mut os = execute(&c, &data, true, None, true);
+        Cancel::Pre | Cancel::PreSame => {
+            // `pres`: both calls borrow one `Progress` value (cancel -> call -> reset -> retry on the same object)
+            let same_progress = c.cancel == Cancel::PreSame;
+            let mut os = execute_plan(&c, &data, Plan { pre_cancel: true, retry: true, same_progress, ..Plan::default() });
             if os.len() != 2 {
                 let o = os.remove(0);
                 return Some((res_name(&o.result), orc));
@@ -717,7 +900,8 @@ pub fn run(line: &str) -> Option<(String, Vec<String>)> {
                 orc.push(format!("pre-cancelled call made {} progress reports", o1.reports.len()));
             }
             if o2.result.is_err() {
-                orc.push(format!("retry after reset failed: {}", res_name(&o2.result)));
+                let how = if same_progress { " (same Progress value as the cancelled call)" } else { "" };
+                orc.push(format!("retry after reset failed{how}: {}", res_name(&o2.result)));
             }
             let written1 = o1.written;
             if written1 != 0 {
@@ -744,6 +928,51 @@ pub fn run(line: &str) -> Option<(String, Vec<String>)> {
                 res_name(&o.result)
             };
             Some((res, orc))
+        }
+        Cancel::Io(..) | Cancel::IoSweep => {
+            // the unfailed run tells how many bytes the call writes (its sequence is judged by the `-` case of the
+            // same shape)
+            let o = execute(&c, &data, false, None, false).remove(0);
+            let total = o.written;
+            if o.result.is_err() || total == 0 {
+                return Some((if total == 0 && o.result.is_ok() { "no-output".into() } else { res_name(&o.result) }, orc));
+            }
+            let point = |a: u32, b: u32| ((total as u128 - 1) * a as u128 / b as u128) as usize;
+            let fail = |k: usize, orc: &mut Vec<String>| -> Outcome {
+                let f = execute_plan(&c, &data, Plan { fail_after: Some(k), ..Plan::default() }).remove(0);
+                check_sequence(&format!("writer failing at byte {k} of {total}"), &c, &f, false, None, orc);
+                f
+            };
+            match c.cancel {
+                Cancel::Io(a, b) => {
+                    let f = fail(point(a, b), &mut orc);
+                    let res = if a == 0 || a == b { format!("{} n={}", res_name(&f.result), f.reports.len()) } else { res_name(&f.result) };
+                    Some((res, orc))
+                }
+                _ => {
+                    let mut ks: Vec<usize> = (0..=8).map(|a| point(a, 8)).collect();
+                    ks.dedup();
+                    let mut not_io = vec![];
+                    let (mut first, mut last) = (0, 0);
+                    for &k in &ks {
+                        let f = fail(k, &mut orc);
+                        if !matches!(f.result, Err(EncodingError::Io(_))) {
+                            not_io.push(format!("{k}:{}", res_name(&f.result)));
+                        }
+                        if k == 0 {
+                            first = f.reports.len();
+                        }
+                        if k == total - 1 {
+                            last = f.reports.len();
+                        }
+                        if orc.len() > 8 {
+                            break;
+                        }
+                    }
+                    let io = if not_io.is_empty() { "all".to_string() } else { not_io.join(",") };
+                    Some((format!("iosweep {} n={} io={io} nfirst={first} nlast={last}", res_name(&o.result), o.reports.len()), orc))
+                }
+            }
         }
         Cancel::Sweep => {
             let o = execute(&c, &data, false, None, false).remove(0);
